@@ -60,12 +60,12 @@ func checkC18(c *Ctx) {
 		c.Check(ok, "C18.1", "Shuffle: randomness comes from rand.New(rand.NewSource(seed)) only", p.FuncPos(sh), "same seed, same order", "shuffle source is not seeded from the seed parameter")
 	}
 
+	// the list of (leader, partitions) combinations: the field whose length is given to (*rand.Rand).Shuffle
+	listField := kGen + "leadersPartitions"
 	// C18.6 Shuffle only permutes: the callback given to rand.Shuffle swaps leadersPartitions[i] and [j] and does nothing else
 	{
 		okSwap := false
 		detail := "no swap callback found"
-		// the list being shuffled: the field whose length is given to (*rand.Rand).Shuffle
-		listField := kGen + "leadersPartitions"
 		{
 			ks := NewKeyer(p, sh)
 			eachInstr(sh, func(in ssa.Instruction) {
@@ -269,7 +269,7 @@ func checkC18(c *Ctx) {
 					nReset++
 					facts := d.Facts
 					if !hasCmp(facts, "<=", func(k string) bool {
-						return strings.HasPrefix(k, "builtin len(p0->hs/twins.Generator.leadersPartitions)")
+						return strings.HasPrefix(k, "builtin len(p0->"+listField+")")
 					}, is(elem)) {
 						bad = append(bad, p.InstrPos(in)+": reset not under len(leadersPartitions) <= "+shortVal(elem))
 					}
